@@ -22,15 +22,18 @@
 (* wrong JSON type; 99 the entity factory fails.                                          *)
 EXTENDS Integers, Sequences, FiniteSets, TLC, Json
 
-CONSTANTS Kinds,          \* subset of {"token", "userpass", "kafka"}
+CONSTANTS Kinds,          \* subset of {"token", "userpass", "kafka", "kafka_off"}
           CreateFaults,   \* faults of the first create
           ReadFaults, PauseFaults, ResumeFaults, DeleteFaults, RestartFaults,
           WithDupCreate,  \* a second create (fault 95 / 96 / 98) may follow
           MaxOps,
           MaskOnCreateFail, MaskOnConnectFail, MaskSasl, MaskOnReloadFail, NoDecodeEcho
 
-Secret(k) == CASE k = "token" -> {"token"} [] k = "userpass" -> {"password"} [] k = "kafka" -> {"sasl_pass", "sasl_user"}
-Sasl(k)   == IF k = "kafka" THEN {"sasl_pass", "sasl_user"} ELSE {}
+\* "kafka_off": a Kafka target whose sasl block carries user / password while enable_sasl is false (the credentials
+\* are stored and must be masked all the same)
+KafkaKinds == {"kafka", "kafka_off"}
+Secret(k) == CASE k = "token" -> {"token"} [] k = "userpass" -> {"password"} [] k \in KafkaKinds -> {"sasl_pass", "sasl_user"}
+Sasl(k)   == IF k \in KafkaKinds THEN {"sasl_pass", "sasl_user"} ELSE {}
 
 VARIABLES task,      \* "none" | "Running" | "Paused"
           kind,      \* kind of the create request(s) of this history
@@ -56,7 +59,7 @@ CreateLog(k, f, failed) ==
 Create(f) ==
     /\ \/ task = "none" /\ f \notin {96}
        \/ task # "none" /\ f \in {95, 96, 98}
-    /\ (f = 97 => kind # "kafka")
+    /\ (f = 97 => kind \notin KafkaKinds)
     /\ \/ /\ f # 0                                  \* the fault fires: the request fails
           /\ logLeak' = CreateLog(kind, f, TRUE) /\ UNCHANGED task
        \/ /\ f \in 0..6 \cup {99} /\ task = "none"  \* no fault, or a fault position that does not exist
